@@ -142,11 +142,73 @@ def check_scale(scale, part):
                            "import stix2.confidence.scales as S\nprint(S.%s(%r))\n" % (FUNCS[scale][1], label))
 
 
+def expected_call(scale, direction, arg):
+    """history-free expectation from the frozen tables: ('ok', result) or ('ValueError', None)"""
+    if direction == "v2l":
+        lab = expected_label(scale, arg)
+        return ("ok", lab) if lab is not None else ("ValueError", None)
+    for lo, hi, label, rep in TABLES[scale]:
+        if arg == label:
+            return ("ok", rep)
+    return ("ValueError", None)
+
+
+def domain(scale, full):
+    ints = list(range(LO, HI + 1)) if full else list(range(-3, 105)) + [LO, HI]
+    labs = [r[2] for r in TABLES[scale]] + NO_VALUE_LABELS.get(scale, []) + near_misses(scale)
+    return [(scale, "v2l", v) for v in ints] + [(scale, "l2v", l) for l in labs]
+
+
+def sequences(case, part):
+    """All ordered pairs of calls (a then b): whatever a call leaves behind (a memo, a consumed iterator, a mutated table) must not change any later answer.
+    Per first call a the scales module is reloaded (fresh state), a is made, then every b of the menu is made in menu order and again in reverse order;
+    each answer is compared with the history-free table expectation."""
+    import importlib
+    import stix2.confidence.scales as S
+    full = case.get("full", False)
+    scales = [case["scale"]] if not case.get("cross") else sorted(TABLES)
+    firsts = domain(case["scale"], full)
+    seconds = [c for sc in scales for c in domain(sc, full and not case.get("cross"))]
+    for a in firsts:
+        S = importlib.reload(S)
+        fns = {(sc, d): getattr(S, FUNCS[sc][0 if d == "v2l" else 1]) for sc in TABLES for d in ("v2l", "l2v")}
+        ra = call(fns[a[:2]], a[2])
+        part.state(("seq", a), nontrivial=True)
+        for order, menu in (("fwd", seconds), ("rev", seconds[::-1])):
+            for b in menu:
+                part.evaluations += 1
+                part.transitions += 1
+                rb = call(fns[b[:2]], b[2])
+                if rb != expected_call(*b):
+                    # the same call on a fresh module: a wrong answer that does not depend on history is the business of the depth-1 pass above
+                    S = importlib.reload(S)
+                    fns = {(sc, d): getattr(S, FUNCS[sc][0 if d == "v2l" else 1]) for sc in TABLES for d in ("v2l", "l2v")}
+                    iso = call(fns[b[:2]], b[2])
+                    S = importlib.reload(S)
+                    fns = {(sc, d): getattr(S, FUNCS[sc][0 if d == "v2l" else 1]) for sc in TABLES for d in ("v2l", "l2v")}
+                    call(fns[a[:2]], a[2])
+                    if iso == rb:
+                        part.outcome("sequence:wrong-regardless-of-history")
+                        continue
+                    part.outcome("sequence:DIFFERS")
+                    part.violation("C20/history-dependent/%s" % b[0], "the answer of a conversion depends on the calls made before it",
+                                   {"scale": case["scale"], "first": list(a), "then": list(b), "order": order, "full": full, "cross": bool(case.get("cross")), "kind": "sequences"},
+                                   list(expected_call(*b)), list(rb),
+                                   "import stix2.confidence.scales as S\nS.%s(%r)\nprint(S.%s(%r))\n" % (FUNCS[a[0]][0 if a[1] == "v2l" else 1], a[2], FUNCS[b[0]][0 if b[1] == "v2l" else 1], b[2]))
+                else:
+                    part.outcome("sequence:same")
+    importlib.reload(S)
+
+
 def run_case(case, part):
+    if case.get("kind") == "sequences":
+        return sequences(case, part)
     check_scale(case["scale"], part)
 
 
 def replay(case, part):
+    if case.get("kind") == "sequences":
+        return sequences({"kind": "sequences", "scale": case["scale"], "full": case.get("full", False), "cross": case.get("cross", False)}, part)
     check_scale(case["scale"], part)
 
 
@@ -159,6 +221,14 @@ def run(run):
     run.assumptions.append("oracle: frozen copy of STIX 2.1 Appendix A ranges in mc/checks/c20_confidence.py")
     cases = [{"scale": s} for s in sorted(TABLES)]
     run.pmap(run_case, cases, serial=True)
+    # depth-2 operation sequences (state left behind by an earlier call)
+    seq = [{"kind": "sequences", "scale": s, "full": run.thorough} for s in sorted(TABLES)]
+    if run.thorough:
+        seq += [{"kind": "sequences", "scale": s, "cross": True} for s in sorted(TABLES)]
+    run.pmap(run_case, seq)
+    run.rule += ("; plus every ordered pair of calls (a, b) of one scale%s: module reloaded, a called, then every b (menu order and reversed) compared with the history-free table"
+                 % (" over the complete domain, and across scales over the reduced domain" if run.thorough else " over the reduced domain (-3..104, extremes, all labels and near misses)"))
+    run.bound["sequence_depth"] = 2
     run.part.sample({"scale": "wep", "fn": "value_to_wep", "arg": 99, "expected": "Highly likely/Almost Certain"})
     run.part.sample({"scale": "admiralty_credibility", "fn": "admiralty_credibility_to_value", "arg": "6 - Truth cannot be judged", "expected": "ValueError"})
     run.part.sample({"scale": "zero_ten", "fn": "value_to_zero_ten", "arg": -200, "expected": "ValueError"})
@@ -166,3 +236,4 @@ def run(run):
     run.require(o["value-converted"] == 5 * 101, "all 505 in-range conversions observed")
     run.require(o["value-refused"] == 5 * (HI - LO + 1 - 101), "all out-of-range values observed refused")
     run.require(o["label-converted"] == sum(len(t) for t in TABLES.values()), "every label converted")
+    run.require(o["sequence:same"] + o["sequence:DIFFERS"] > 100000, "call pairs executed")
